@@ -7,6 +7,8 @@ DEC = {"der": "ber", "uper": "uper", "oer": "oer", "xer": "xer", "cxer": "xer"}
 
 def run(ctx):
     ctx.lean()
+    from .. import c05_stream
+    c05_stream.audit_once(ctx)      # stream_consumed_le / berDec_consumed_le / stream_rc_total: the C04 half of the streaming BER model
     gfind.replay_witnesses(ctx)
     nb = 3 if ctx.quick else 30
     nvals = 3 if ctx.quick else 8
